@@ -208,7 +208,17 @@ func (r *repository) addRulesTo(tree *radixtree.Tree[rule.Route], rules []rule.R
 
 func (r *repository) removeRulesFrom(tree *radixtree.Tree[rule.Route], tbdRules []rule.Rule) error {
 	for _, rul := range tbdRules {
+		// all routes of a rule registered for the same path expression are removed with
+		// the first delete operation for that expression
+		handled := make(map[string]struct{})
+
 		for _, route := range rul.Routes() {
+			if _, done := handled[route.Path()]; done {
+				continue
+			}
+
+			handled[route.Path()] = struct{}{}
+
 			if err := tree.Delete(
 				route.Path(),
 				radixtree.ValueMatcherFunc[rule.Route](func(route rule.Route) bool {
